@@ -193,3 +193,38 @@ def members_with_different_numbers_of_components_are_not_averaged_per_component(
     assert bc._checkBlockSimilarity() == similar, "similar = same number of components and the same flags position by position"
 
 
+
+
+def check_signed_mean(avg, ws, xs, what):
+    """avg is the weight-normalised mean of xs for weights of ONE sign (not all zero): the normalised weights w / W
+    are >= 0 and sum to one, hence avg lies between min and max and is the common value when the members agree"""
+    W = sum(ws)
+    assert eq(avg * W, sum(w * x for w, x in zip(ws, xs))), what + ": weight-normalised mean"
+    tol = 1e-9 * (1.0 + abs(avg)) if NATIVE else 0.0  # rounding of the floating-point mean only (A1)
+    assert any(w != 0 and x <= avg + tol for w, x in zip(ws, xs)), what + ": not below the minimum"
+    assert any(w != 0 and x >= avg - tol for w, x in zip(ws, xs)), what + ": not above the maximum"
+    for w0, x0 in zip(ws, xs):
+        assert implies(w0 != 0 and all(implies(w != 0, x == x0) for w, x in zip(ws, xs)), eq(avg, x0)), what + ": the common value"
+
+
+GENA_NEG = {"n": [1, 2, 3], "w1": (0.1, 50.0), "w2": (0.1, 50.0), "w3": (0.1, 50.0), "A1": [0.0, -0.5, -2.0], "A2": [-1.5, -3.0], "A3": [-0.25, -4.0, 0.0],
+            "u1": (0.0, 0.05), "u2": (0.0, 0.05), "u3": (0.0, 0.05)}
+
+
+@lemma(gen=GENA_NEG)
+def matching_components_of_negative_area_keep_their_average_density(n: int, w1: float, w2: float, w3: float, A1: float, A2: float, A3: float,
+                                                                    u1: float, u2: float, u3: float):
+    """CylindricalComponentsAverageBlockCollection._getAverageComponentNucs for the matching components of 1..3
+    members (enumerated) whose area is NEGATIVE (<= 0, not all zero) in every member - armi's representation of a gap
+    that the neighbouring components overlap (Component.getArea / getVolume are negative there, and the gap may hold
+    a bond material, not only void).  Weight of a member = block weight x component area; all weights have one sign,
+    so the weight-normalised mean is the same convex combination as for positive areas.  REFUTED: the method tests
+    `totalWeight > 0.0` where it means `!= 0.0` and returns ZERO densities for every nuclide: the bond of the
+    representative block is emptied although every member holds the same density."""
+    n = choose(n, 1, 3)
+    bw, ar, us = [w1, w2, w3][:n], [A1, A2, A3][:n], [u1, u2, u3][:n]
+    assume(all(w > 0 for w in bw) and all(a <= 0 for a in ar) and any(a < 0 for a in ar))
+    comps = [ccomp(0, {"U235": u}, area=a) for u, a in zip(us, ar)]
+    names, dens = Cyl(NUCS)._getAverageComponentNucs(comps, bw)
+    assert names == ["U235"] and len(dens) == 1
+    check_signed_mean(dens[0], [w * a for w, a in zip(bw, ar)], us, "U235")
